@@ -145,7 +145,9 @@ def one_case(c, tmp, idx):
             crop.sow_samples(rng.randint(2, 6), verbosity=0)
         elif sw.cases and rng.random() < 0.5:
             crop.shuffle = shuffle
-            crop.sow_cases(tuple(sw.case_args), [tuple(x) for x in sw.cases], combos=dict(sw.combos) or None,
+            # fn_args=None: the runner's own argument order decides, as in a direct run_cases(cases)
+            rep["case_fn_args"] = case_fn_args = (None if rng.random() < 0.3 else tuple(sw.case_args))
+            crop.sow_cases(case_fn_args, [tuple(x) for x in sw.cases], combos=dict(sw.combos) or None,
                            constants=dict(sow_consts) or None, verbosity=0)
         else:
             crop.sow_combos(dict(sw.combos) if sw.combos else None, cases=sw.cases_dicts() if sw.cases else None,
@@ -189,8 +191,8 @@ def one_case(c, tmp, idx):
         return rep, bad
     from xyzpy.gen.prepare import parse_combos
     if sw.cases:
-        direct = direct_runner.run_cases([tuple(x) for x in sw.cases], fn_args=tuple(sw.case_args),
-                                         combos=parse_combos(dict(sw.combos)), constants=dict(sow_consts),
+        direct = direct_runner.run_cases([tuple(x) for x in sw.cases], fn_args=rep.get("case_fn_args", tuple(sw.case_args)),
+                                         combos=(dict(sw.combos) or None), constants=dict(sow_consts),
                                          to_df=to_df, verbosity=0)
     else:
         direct = direct_runner.run_combos(dict(sw.combos), constants=dict(sow_consts), to_df=to_df, verbosity=0)
@@ -212,7 +214,7 @@ def one_case(c, tmp, idx):
         other = xyzpy.Harvester(mk_runner(), data_name=os.path.join(d, "direct_side"))
         if sw.cases:
             other.harvest_cases([tuple(x) for x in sw.cases], fn_args=tuple(sw.case_args),
-                                combos=parse_combos(dict(sw.combos)), overwrite=pol, constants=dict(sow_consts),
+                                combos=(dict(sw.combos) or None), overwrite=pol, constants=dict(sow_consts),
                                 verbosity=0)
         else:
             other.harvest_combos(dict(sw.combos), overwrite=pol, constants=dict(sow_consts), verbosity=0)
